@@ -81,11 +81,16 @@ def cases(tier, seed):
     return out
 
 
+TERM_REASONS = [0, 1, 3, 5, 0, 6, 0xF0, 2, 0xFF, 4, 0x80]
+
+
 def _do_action(run, who, action, record):
     sides = ['A', 'B'] if who == 'both' else [who]
     for side in sides:
         if action == 'terminate':
-            res = run.call(side, 'terminate', dbus.Byte(0))
+            # the reason is the caller's octet: registered codes, unassigned ones and the private-use range alike
+            reason = TERM_REASONS[(run.sim.world.event_no + len(record)) % len(TERM_REASONS)]
+            res = run.call(side, 'terminate', dbus.Byte(reason))
             record.append((side, action, not isinstance(res, Exception), run.ends[side].hdl._in_sess, run.sim.world.event_no))
         elif action == 'close':
             res = run.call(side, 'close')
